@@ -156,4 +156,32 @@ mod verif_dynde {
             Err(e) => assert!(n > l && e == Error::UnexpectedEndOfData),
         }
     }
+
+    /// C17: float leaves: dynamic decode == static decode for every byte string <= 9 whose float is FINITE
+    #[kani::proof]
+    #[kani::unwind(12)]
+    fn leaf_floats() {
+        let b: [u8; 9] = kani::any();
+        let l: usize = kani::any();
+        kani::assume(l <= 9);
+        let inp = &b[..l];
+        match (deserialize(&O::F64, inp), postcard::take_from_bytes::<f64>(inp)) {
+            (Ok((v, rest)), Ok((w, rest2))) => {
+                assert!(v.as_f64() == Some(w) && rest.len() == rest2.len(), "SPEC: dynamic f64 differs from the static decoder's");
+                core::mem::forget(v);
+            }
+            (Err(_), Ok((w, _))) => assert!(!w.is_finite(), "SPEC: dynamic decoder rejects a finite f64"),
+            (Err(_), Err(_)) => {}
+            (Ok((v, _)), Err(_)) => { core::mem::forget(v); panic!("SPEC: dynamic decoder accepts a truncated f64") }
+        }
+        match (deserialize(&O::F32, inp), postcard::take_from_bytes::<f32>(inp)) {
+            (Ok((v, rest)), Ok((w, rest2))) => {
+                assert!(v.as_f64() == Some(w as f64) && rest.len() == rest2.len(), "SPEC: dynamic f32 differs from the static decoder's");
+                core::mem::forget(v);
+            }
+            (Err(_), Ok((w, _))) => assert!(!w.is_finite(), "SPEC: dynamic decoder rejects a finite f32"),
+            (Err(_), Err(_)) => {}
+            (Ok((v, _)), Err(_)) => { core::mem::forget(v); panic!("SPEC: dynamic decoder accepts a truncated f32") }
+        }
+    }
 }
